@@ -28,12 +28,17 @@ Trivial(k)          == k \in {"int", "Triv"}
 DefaultCtor(k)      == k # "NDC"
 NothrowDefault(k)   == k \notin {"NDC", "TD"}
 CopyCtor(k)         == k # "MO"
-NothrowCopy(k)      == k \in {"int", "Triv", "NA", "TA", "NDC", "TD"}
-NothrowMove(k)      == k # "TM"             \* move construction and move assignment alike
-NothrowSwap(k)      == k # "TM"
+NothrowCopy(k)      == k \in {"int", "Triv", "NA", "TA", "NDC", "TD", "TS"}
+(* round 3: kinds on which "nothrow move" and "nothrow swap" differ ([variant.swap]: noexcept iff every alternative is BOTH  *)
+(* nothrow move constructible AND nothrow swappable).  SW: a pre-C++11 style class - copy constructor and copy assignment  *)
+(* that may throw, no move members, and a noexcept ADL swap; TS: everything noexcept except its ADL swap.                  *)
+ExtraKinds          == {"SW", "TS"}
+NothrowMove(k)      == k \notin {"TM", "SW"}             \* move construction and move assignment alike
+NothrowSwap(k)      == k \notin {"TM", "TS"}
 
 AltLists == {<<a>> : a \in ClassKinds} \cup {<<a, b>> : a, b \in ClassKinds}
             \cup {<<"int", "NT", "TM">>, <<"Triv", "int", "Triv">>, <<"NA", "MO", "NT">>, <<"TD", "NT", "int">>}
+            \cup {<<a>> : a \in ExtraKinds} \cup {<<"int", "SW">>, <<"SW", "NT">>, <<"TS", "int">>, <<"NA", "TS">>, <<"SW", "TS">>, <<"int", "NA", "SW">>}
 All(S, P(_)) == \A i \in 1..Len(S) : P(S[i])
 
 (* [variant.ctor] [variant.assign] [variant.swap]: value of each trait of variant<S>.  "dir" says how a *)
@@ -136,7 +141,8 @@ EmitRows == /\ trow.t = "none" \/ PrintT("@R@" \o ToJson(trow))
 (* theorems of the tables themselves *)
 (* a variant is nothrow-movable exactly if no alternative has a throwing move; trivially destructible only over trivial alternatives *)
 TraitLaws == trow.t = "trait" =>
-    /\ (trow.trait = "nothrow_move_constructible" => (trow.want <=> \A i \in 1..Len(trow.S) : trow.S[i] # "TM"))
+    /\ (trow.trait = "nothrow_move_constructible" => (trow.want <=> \A i \in 1..Len(trow.S) : trow.S[i] \notin {"TM", "SW"}))
+    /\ (trow.trait = "nothrow_swappable" => (trow.want <=> \A i \in 1..Len(trow.S) : trow.S[i] \notin {"TM", "SW", "TS"}))
     /\ ((trow.trait = "trivially_destructible" /\ trow.want) => \A i \in 1..Len(trow.S) : trow.S[i] \in {"int", "Triv"})
 (* an argument of exactly an alternative's type selects that alternative, under both rules *)
 ConvLaws == crow.t = "conv" =>
